@@ -227,4 +227,101 @@ theorem c04_payout_combined (p : Params) (bal : List (Nat × Int)) (h t : Nat) (
   cml_transfer p bal h t we de ops hwf (fun c => cms_Payout c op)
     (fun cops hw => c04_payout p bal h t cops op h0 hw hop)
 
+-- ---------------------------------------------------------------------------------------------
+-- the charge at placement of a wager through a subaccount
+
+/-- C03.n (combined), transfers `c03_charge_at_placement` to MsgWager of x/subaccount. For every reachable combined
+    state `s` and every ACCEPTED subaccount wager of `owner` (deductions `main` from the owner, `sub` from the
+    subaccount, `main + sub = amount`), the message is:
+    1. `withdrawLockedO`: the subaccount address `a` of the owner sends `sub` to the owner (state `s1`; no other
+       balance and no bet record changes);
+    2. the REAL core wager `wagerO s1.core owner …` with the OWNER as bettor (core state `c2`): it stores exactly one new
+       bet record `nb` — uid, next sequence number, bettor = owner, market, outcome and odds of the ticket, current bet
+       fee, PLACED / PENDING, recorded stake = Σ stakes of its backing parts — and charges the OWNER exactly fee +
+       recorded stake, the pool rises by the recorded stake, the bet-fee collector by the fee, no other balance changes
+       (the equation holds for every account, the subaccount address included); the promise of the parts as in the
+       core theorem;
+    3. `returnToSubO`: what the owner has left above (balance before − main), at most `sub`, goes back owner →
+       subaccount address. -/
+theorem c03_charge_at_placement_subWager (p : Params) (bal : List (Nat × Int)) (h t : Nat) (we de : Bool) (ops : List Op)
+    (hwf : ∀ op ∈ ops, op.wf) (owner : Nat) (outerOk : Bool) (ic : Nat) (main sub : Int) (tk : Tk) (uid : Nat)
+    (amount : Int) (pl : WagerPayload) (s' : State) :
+    let s := run (init p bal h t we de) ops
+    subWagerO s owner outerOk ic main sub tk uid amount pl = some s' →
+    ∃ (a : Nat) (s1 : State) (c2 : Core.State),
+      aget s.owners owner = some a ∧ main + sub = amount ∧ 0 ≤ main ∧ 0 ≤ sub ∧
+      withdrawLockedO s a owner sub = some s1 ∧
+      (∀ acct, getBal s1.core.bal acct = getBal s.core.bal acct - (if acct = a then sub else 0)
+          + (if acct = owner then sub else 0)) ∧
+      s1.core.bets = s.core.bets ∧
+      wagerO s1.core owner tk uid amount pl = some c2 ∧
+      returnToSubO { s1 with core := c2 } a owner (min (getBal c2.bal owner - (s.bal owner - main)) sub) = some s' ∧
+      ∃ nb ∈ c2.bets, (∀ z ∈ c2.bets, z = nb ∨ z ∈ s.core.bets) ∧ nb ∉ s.core.bets ∧
+        nb.uid = uid ∧ nb.id = s.core.bets.length + 1 ∧ nb.creator = owner ∧ nb.market = pl.market ∧ nb.odds = pl.odds ∧
+        pl.oddsVal = some nb.oddsVal ∧ nb.fee = s1.core.params.betFee ∧ nb.status = BS_PLACED ∧ nb.result = BR_PENDING ∧
+        nb.amount = sumBet nb.fulfs ∧
+        (∀ acct, getBal c2.bal acct = getBal s1.core.bal acct - (if acct = owner then nb.fee + nb.amount else 0)
+            + (if acct = ACC_POOL then nb.amount else 0) + (if acct = ACC_BETFEE then nb.fee else 0)) ∧
+        (amount ≥ nb.fee →
+          sumProfit nb.fulfs = ((nb.oddsVal.mulInt (amount - nb.fee)).sub (Dec.ofInt (amount - nb.fee))).truncInt ∧
+          ∀ f ∈ nb.fulfs, 0 ≤ f.profit) := by
+  intro s hsw
+  obtain ⟨⟨cops, hw, e⟩, hI⟩ := cmb_run_sim ops (init p bal h t we de) (cmb_init_ownInv p bal h t we de) hwf
+  unfold subWagerO at hsw
+  simp only [bind, Option.bind_eq_some_iff, pure, Option.some.injEq] at hsw
+  obtain ⟨_, _, a, ha, _, _, _, _, _, hnn, _, hsum, _, _, s1, hs1, s2, hs2, h3⟩ := hsw
+  have hnn := chk_some hnn
+  have hsum := chk_some hsum
+  simp only [Bool.and_eq_true, decide_eq_true_eq] at hnn hsum
+  obtain ⟨ho, haa⟩ := hI.own owner a ha
+  -- the core state in which the wager runs is reachable
+  obtain ⟨ops1, hw1, e1⟩ := cml_withdrawLocked_spec haa ho hs1
+  have er : s1.core = Core.run (initState p bal h t) (cops ++ ops1) := by
+    rw [cmb_run_append, e1]
+    exact congrArg (fun c => Core.run c ops1) e
+  have hB : BetIdx s1.core := by rw [er]; exact run_betIdx _ _ (betIdx_init p bal h t)
+  -- step 1
+  have hs1' := hs1
+  unfold withdrawLockedO at hs1'
+  simp only [bind, Option.bind_eq_some_iff, pure, Option.some.injEq] at hs1'
+  obtain ⟨r, _, _, _, s1a, hs1a, sum', _, rfl⟩ := hs1'
+  unfold send at hs1a
+  cases hc : bankSend s.core a owner sub with
+  | none => simp [hc] at hs1a
+  | some c1 =>
+    simp only [hc, Option.map_some, Option.some.injEq] at hs1a
+    subst hs1a
+    have hbal1 := bp_bankSend_bal hc
+    have hfr1 := (bp_bankSend_frame hc).1
+    -- step 2
+    unfold subWagerBet at hs2
+    cases hc2 : wagerO c1 owner tk uid amount pl with
+    | none =>
+      have : wagerO (State.setSub { s with core := c1 } a { r with sum := sum' }).core owner tk uid amount pl = none := hc2
+      simp [this] at hs2
+    | some c2 =>
+      have hc2' : wagerO (State.setSub { s with core := c1 } a { r with sum := sum' }).core owner tk uid amount pl = some c2 := hc2
+      simp only [hc2', Option.map_some, Option.some.injEq] at hs2
+      subst hs2
+      obtain ⟨nb, ⟨q1, q2, q3, q4, q5, q6, q7, q8, q9, q10, q11, q12, q13⟩, hmem⟩ := bp_wagerO_placed hc2
+      have hB' : BetIdx c1 := hB
+      refine ⟨a, _, c2, ha, hsum, hnn.1, hnn.2, hs1, hbal1, hfr1, hc2, h3, nb, q1, ?_, ?_, q2, ?_, q4, q5, q6, q7, q8, q9,
+        q10, q11, ?_, ?_⟩
+      · intro z hz
+        rcases hmem z hz with h' | h'
+        · exact Or.inl h'
+        · exact Or.inr (hfr1 ▸ h')
+      · intro hin
+        have hin' : nb ∈ c1.bets := by rw [hfr1]; exact hin
+        have := (hB'.idLo nb hin').2
+        omega
+      · rw [q3, ← hfr1]
+        show c1.betCount + 1 = c1.bets.length + 1
+        rw [hB'.count]
+      · intro acct
+        rw [q11]
+        exact q12 acct
+      · intro hfee
+        exact q13 hfee
+
 end Sge.Combined
